@@ -194,7 +194,7 @@ func (c *Checked) Step(i int) {
 	}
 
 	for _, e := range evs {
-		if e.Kind == EvExit && e.Out != OutOK {
+		if (e.Kind == EvExit && e.Out != OutOK) || (e.Kind == EvCallback && e.CB.Panicked) {
 			c.faultBefore = true
 		}
 	}
@@ -467,7 +467,16 @@ func (c *Checked) checkLogRules(i int, op Op, res *OpResult, evs []Event) {
 		c.probe("fault_in_dependency")
 		want := [2]int{firstFail, firstFailExec}
 		f := res.Facts
+		cbPanicked := false
+		for _, e := range evs {
+			if e.Kind == EvCallback && e.CB.Panicked && e.Nest == 0 {
+				// a panicking callback takes over from whatever the function
+				// itself reported: no claim about the root cause then
+				cbPanicked = true
+			}
+		}
 		switch {
+		case cbPanicked:
 		case failKind == OutErr:
 			if f.RootInj != want {
 				c.viol(i, "root-cause-lost", fmt.Sprintf("f%d failed with its injected error (exec %d) but Invoke returned verdict %s root=%v (%s)", firstFail, firstFailExec, res.Verdict, f.RootInj, f.Text), "C07", "C13")
@@ -1157,7 +1166,7 @@ func (c *Checked) checkInvokeModel(i int, op Op, res *OpResult, evs []Event) {
 				c.viol(i, "ran-with-missing-direct-dependency", fmt.Sprintf("ctor f%d executed although a required direct dependency has no provider", e.Fn), "C04")
 			}
 		}
-		if e.Kind == EvExit && e.Out != OutOK {
+		if (e.Kind == EvExit && e.Out != OutOK) || (e.Kind == EvCallback && e.CB.Panicked) {
 			anyFail = true
 		}
 	}
